@@ -78,7 +78,8 @@ class NTTWorld:
         s.ctx = contracts.Ctx()
         summ, _ = contracts.wrapper_summaries(s.mod, s.ctx)
         summ.update(gmp_summaries())
-        o = {'log_access': True, 'omp_max_threads': 4}
+        from . import rawhelper
+        o = {'log_access': True, 'omp_max_threads': 4, 'raw_helper': rawhelper.decide}
         o.update(opts or {})
         s.I = Interp(s.mod, summ, o)
         s.I.gmp = {}
